@@ -224,21 +224,53 @@ def inv_cursor_status(c):
 
 
 def read_advance(c):
-    """D2b: Buffer::read stores cursor + size_of::<T>()"""
+    """D2b: Buffer::read stores cursor + size_of::<T>() and decodes exactly data[cursor .. cursor + size_of::<T>()] of the
+    entry state - decided on the canonical term of the function (sym.py), so that introducing locals, reordering pure
+    statements or other restyling does not matter"""
+    from .. import sym as SY
     f = [f for f in c.fns if f["path"].endswith("buffer::{impl#0}::read")]
     if not f:
         return [("gamedig::buffer::Buffer::read|ADVANCE", False, "Buffer::read not found", None)]
     f = f[0]
-    b = Body(f)
+    name = S.fn_display(f)
+    sy = SY.Sym(c, lambda p: False, None)
+    eff = sy.run_unit(f)
+    pr = SY.Printer(sy)
+    sets, rets = [], []
+
+    def walk(es):
+        for e in es:
+            if e[0] == "set":
+                sets.append(e)
+            elif e[0] == "ret":
+                rets.append(e)
+            elif e[0] == "if":
+                walk(e[2]); walk(e[3])
+            elif e[0] == "guard":
+                walk(e[2])
+            elif e[0] == "match":
+                for arm in e[2]:
+                    walk(arm[2])
+            elif e[0] == "loop":
+                walk(e[5])
+    walk(eff)
     rows = []
-    for bi, blk in enumerate(b.blocks):
-        for s in blk["stmts"]:
-            if s["k"] == "assign" and s["lhs"][1] and s["lhs"][1][-1][0] == "f" and s["lhs"][1][-1][2] == "cursor":
-                r = b.render_rvalue(s["rv"], 4, names=False)
-                ok = r.replace(" ", "") in ("(*arg1.cursor+mem::size_of()).0", "(arg1.cursor+mem::size_of()).0")
-                rows.append(("%s|ADVANCE" % S.fn_display(f), ok, "cursor := %s" % r, s.get("at")))
-    if not rows:
-        rows.append(("%s|ADVANCE" % S.fn_display(f), False, "no cursor store in Buffer::read", f["span"]))
+    cur_sets = [e for e in sets if pr.show(e[1]) == "a0.cursor"]
+    want = "(a0.cursor Add size_of<T>())"
+    for e in cur_sets:
+        got = pr.show(e[2])
+        rows.append(("%s|ADVANCE" % name, got == want, "cursor := %s" % got, e[3]))
+    if len(cur_sets) != 1:
+        rows.append(("%s|ADVANCE|stores" % name, False, "%d stores to the cursor in Buffer::read (expected exactly one)" % len(cur_sets), f["span"]))
+    others = [e for e in sets if pr.show(e[1]) != "a0.cursor"]
+    for e in others:
+        rows.append(("%s|ADVANCE|other-store" % name, False, "Buffer::read writes %s" % pr.show(e[1]), e[3]))
+    want_ret = "BufferRead::read_from_buffer(a0.data[a0.cursor..(a0.cursor Add size_of<T>())])?"
+    for e in rets:
+        got = pr.show(e[1])
+        rows.append(("%s|WINDOW" % name, got == want_ret, "returns %s" % got, e[2]))
+    if not rets:
+        rows.append(("%s|WINDOW" % name, False, "no success return found in Buffer::read", f["span"]))
     return rows
 
 
